@@ -1,0 +1,51 @@
+/*
+ * Verification hooks (H2, concurrency trace).  Everything in this file is inert unless the
+ * library is compiled with -DXERCES_VERIF_HOOKS; without the guard every macro expands to
+ * nothing and no symbol is added.
+ *
+ * With the guard on, instrumented places call through one global function pointer
+ * (XercesVerif::fgEvent) when it is set; a verification harness installs a recorder there.
+ *
+ *   XERCES_VERIF_ACCESS(res, inst, mtx, rw)   access (rw: 0 read, 1 write) to the shared resource
+ *                                             `res` of object `inst`, which the code protects
+ *                                             with XMLMutex* `mtx`
+ *   XERCES_VERIF_INIT_BEGIN/END(site, inst, mtx)  one-time (lazy) initialisation of `site`
+ *   XERCES_VERIF_YIELD(site)                  scheduling point for seeded yield injection
+ */
+#if !defined(XERCESC_INCLUDE_GUARD_XERCESVERIF_HPP)
+#define XERCESC_INCLUDE_GUARD_XERCESVERIF_HPP
+
+#include <xercesc/util/XercesDefs.hpp>
+
+#ifdef XERCES_VERIF_HOOKS
+
+namespace XERCES_CPP_NAMESPACE {
+
+class XMLUTIL_EXPORT XercesVerif
+{
+public:
+    enum Kind { Read = 0, Write = 1, InitBegin = 2, InitEnd = 3, Yield = 4 };
+    typedef void (*EventFn)(int kind, const char* name, const void* inst, const void* mutex);
+    static EventFn fgEvent;     // defined in Mutexes.cpp
+};
+
+}
+
+#define XERCES_VERIF_EVENT(k, name, inst, mtx) \
+    do { if (XERCES_CPP_NAMESPACE::XercesVerif::fgEvent) \
+             XERCES_CPP_NAMESPACE::XercesVerif::fgEvent((k), (name), (const void*)(inst), (const void*)(mtx)); } while (0)
+#define XERCES_VERIF_ACCESS(res, inst, mtx, rw)   XERCES_VERIF_EVENT((rw) ? 1 : 0, res, inst, mtx)
+#define XERCES_VERIF_INIT_BEGIN(site, inst, mtx)  XERCES_VERIF_EVENT(2, site, inst, mtx)
+#define XERCES_VERIF_INIT_END(site, inst, mtx)    XERCES_VERIF_EVENT(3, site, inst, mtx)
+#define XERCES_VERIF_YIELD(site)                  XERCES_VERIF_EVENT(4, site, 0, 0)
+
+#else
+
+#define XERCES_VERIF_ACCESS(res, inst, mtx, rw)   ((void)0)
+#define XERCES_VERIF_INIT_BEGIN(site, inst, mtx)  ((void)0)
+#define XERCES_VERIF_INIT_END(site, inst, mtx)    ((void)0)
+#define XERCES_VERIF_YIELD(site)                  ((void)0)
+
+#endif
+
+#endif
